@@ -332,6 +332,39 @@ fn case_pattern(input: &Input, ctx: &mut Ctx) -> CaseResult {
             Err(false) => ensure!(matches!(&res, Err(e) if e.contains("UnexpectedEof")), "{} poll header machine on incomplete var-int {} returned {:?}", name, hex(cut), res),
         }
     }
+    // the same header state machine in front of a packet type without a body (PINGREQ, PINGRESP, v3 DISCONNECT): a
+    // remaining length of 0 in any width is the packet, with the bytes actually read reported; anything else is refused
+    // in the same way as for any other type (too long: InvalidVarByteInt; cut off: EOF; non-zero: a length error)
+    for (ctl, v3_only) in [(0xC0u8, false), (0xD0, false), (0xE0, true)] {
+        let mut frame = vec![ctl];
+        frame.extend_from_slice(match &model {
+            Ok((_, w)) => &s[..*w],
+            Err(true) => &s[..s.len().min(5)],
+            Err(false) => s,
+        });
+        let flen = frame.len();
+        frame.push(0xC0); // a following packet that must not be touched
+        frame.push(0x00);
+        for fam in 0..2 {
+            if fam == 1 && v3_only {
+                continue;
+            }
+            let (res, total, pos): (Result<(), String>, usize, usize) = if fam == 0 {
+                let r = crate::fam::dec_poll::<V3>(if matches!(model, Err(false)) { &frame[..flen] } else { &frame });
+                (r.result.as_ref().map(|_| ()).map_err(|e| format!("{:?}", e)), r.result.as_ref().map(|o| o.total).unwrap_or(0), r.pos)
+            } else {
+                let r = crate::fam::dec_poll::<V5>(if matches!(model, Err(false)) { &frame[..flen] } else { &frame });
+                (r.result.as_ref().map(|_| ()).map_err(|e| format!("{:?}", e)), r.result.as_ref().map(|o| o.total).unwrap_or(0), r.pos)
+            };
+            let name = if fam == 0 { "v3" } else { "v5" };
+            match &model {
+                Ok((0, w)) => ensure!(res.is_ok() && total == 1 + w && pos == 1 + w, "{} poll decoder on the body-less packet {} (remaining length 0 written in {} byte(s)) returned {:?}, total {}, {} bytes consumed", name, hex(&frame[..flen]), w, res, total, pos),
+                Ok(_) => ensure!(matches!(&res, Err(e) if e.contains("InvalidRemainingLength")), "{} poll decoder on the body-less packet type {:#04x} with a non-zero remaining length ({}) returned {:?}", name, ctl, hex(&frame[..flen]), res),
+                Err(true) => ensure!(matches!(&res, Err(e) if e.contains("InvalidVarByteInt")), "{} poll decoder on {} (over-long remaining length in front of a body-less packet type) returned {:?} instead of InvalidVarByteInt", name, hex(&frame[..flen]), res),
+                Err(false) => ensure!(matches!(&res, Err(e) if e.contains("UnexpectedEof")), "{} poll decoder on {} (remaining length cut off) returned {:?} instead of an EOF error", name, hex(&frame[..flen]), res),
+            }
+        }
+    }
     ctx.count_distinct(1);
     ctx.label(match model {
         Ok((_, w)) => ["", "pattern:1-byte", "pattern:2-byte", "pattern:3-byte", "pattern:4-byte"][w],
